@@ -15,7 +15,9 @@ run is a deadlock.  A step budget bounds every run.
 
 API (keep it small)
 -------------------
-    s = Scheduler(policy, max_steps=5000, start_time=1000.0)
+    s = Scheduler(policy, max_steps=5000, start_time=1000.0, step_cost=0.0)
+                                        # step_cost: virtual seconds charged per executed step (default 0: only
+                                        # blocking advances the clock); > 0 lets time-outs fire under busy loops
     res = s.run(main, *args)            # main runs as managed thread 'main'; the run ends when main returns
                                         # (all other threads still alive are then aborted and listed)
     res.value / res.error               # return value of main / 'TypeName: text' if main raised
@@ -197,9 +199,10 @@ def explore(run_fn, max_preemptions=2, limit=10000):
 
 # ------------------------------------------------------------------------------------------------ scheduler
 class Scheduler:
-    def __init__(self, policy=None, max_steps=5000, start_time=1000.0):
+    def __init__(self, policy=None, max_steps=5000, start_time=1000.0, step_cost=0.0):
         self.policy = policy or NonPreemptive()
         self.max_steps = max_steps
+        self.step_cost = float(step_cost)
         self.now = float(start_time)
         self.threads = []
         self.current = None
@@ -347,6 +350,7 @@ class Scheduler:
                 res.trace.append(item)
                 self._cur_item = item
                 n += 1
+                self.now += self.step_cost
                 self.current = t
                 t.state = 'running'
                 t.sem.release()
